@@ -99,7 +99,7 @@ func (c10) Info() core.Info {
 			"closed lists and Open() results returned earlier must not change under later calls (they are the caller's)",
 		},
 		SimTimeUnit:    "sim_ticks_90khz",
-		RequiredProbes: []string{"breakaway_then_closer", "breakaway_then_explicit_close_below", "resumption_with_breakaway", "resumption_without_breakaway", "second_breakaway", "dup_within_ring", "dup_beyond_ring", "timer_close_hit", "timer_close_miss", "multi_descriptor_signal", "pts_wrap", "no_pts", "vss_pair", "open_depth_ge4", "transport_path", "same_object_twice", "held_lists_checked", "caller_wipes_open_list", "unpolled_stretch", "unpolled_ge_256_calls", "open_depth_ge64", "restamped_signal_through_transport", "pts_time_plus_adjustment_wraps", "descriptor_with_cancel_indicator", "no_pts_but_pts_adjustment"},
+		RequiredProbes: []string{"breakaway_then_closer", "breakaway_then_explicit_close_below", "resumption_with_breakaway", "resumption_without_breakaway", "second_breakaway", "dup_within_ring", "dup_beyond_ring", "timer_close_hit", "timer_close_miss", "multi_descriptor_signal", "pts_wrap", "no_pts", "vss_pair", "open_depth_ge4", "transport_path", "same_object_twice", "held_lists_checked", "caller_wipes_open_list", "unpolled_stretch", "unpolled_ge_256_calls", "open_depth_ge64", "restamped_signal_through_transport", "pts_time_plus_adjustment_wraps", "descriptor_with_cancel_indicator", "no_pts_but_pts_adjustment", "close_with_same_pts_time_under_another_adjustment"},
 	}
 }
 
@@ -171,6 +171,11 @@ func c10GenAdversarial(r *core.Rand) *C10Script {
 var c10RawVSS = []string{"raw:BLACKOUT", "raw:BLACKOUT:", "raw:id BLACKOUT", "raw:BLACKOUT:BLACKOUT", "raw:BLACKOUT:BLACKOUT:x", "raw:xBLACKOUT:y", "raw:blackout:z", "raw:", "raw:BLACKOU", "raw:B"}
 
 func c10Near(r *core.Rand) string {
+	if r.Chance(1, 4) {
+		// the same pts_time under another pts_adjustment (another signal time), or the same
+		// signal time split differently between pts_time and pts_adjustment (the same signal)
+		return fmt.Sprintf("%s:%d", r.PickS("adj", "adj", "split"), r.Pick(0, 1, 7, 16, 24, 31, 32))
+	}
 	switch r.Intn(6) {
 	case 0, 1:
 		return fmt.Sprintf("pts:%d", r.Pick(0, 1, 7, 8, 15, 16, 24, 31, 32, 32, 32))
@@ -490,8 +495,11 @@ func (c10) Gen(r *core.Rand, tier string) interface{} {
 	}
 	if r.Chance(1, 4) {
 		sh := int64(r.Pick(1, 90000, 27000000, 1<<32, 1<<33-1))
+		mixed := r.Chance(1, 3) // only some signals are re-stamped: equal signal times reached through different pts_time / pts_adjustment splits
 		for i := range s.Signals {
-			s.Signals[i].Shift = sh // (a signal without a time gets the pts_adjustment alone)
+			if !mixed || r.Bool() {
+				s.Signals[i].Shift = sh // (a signal without a time gets the pts_adjustment alone)
+			}
 		}
 	}
 	if r.Bool() {
@@ -1277,6 +1285,12 @@ func (c10) Exec(script interface{}, c *core.Ctx) {
 			switch {
 			case scanNear(stp.Near, "pts:", &k):
 				sg.T += int64(1) << uint(k&63%33)
+			case scanNear(stp.Near, "adj:", &k):
+				sg.T += int64(1) << uint(k&63%33)
+				sg.Shift += int64(1) << uint(k&63%33)
+				c.Probe("close_with_same_pts_time_under_another_adjustment")
+			case scanNear(stp.Near, "split:", &k):
+				sg.Shift += int64(1) << uint(k&63%33)
 			case scanNear(stp.Near, "event:", &k):
 				sg.Descs[stp.Desc].Event ^= 1 << uint(k&31)
 			case stp.Near == "seg":
